@@ -136,4 +136,3 @@ func RefParsePattern(cur, s string) (RefPattern, bool) {
 	}
 	return rp, true
 }
-
